@@ -160,11 +160,9 @@ pub open spec fn tx_env<C: ContentAddrStore>(s: UnsealedState<C>, rel: Map<CoinI
     &&& forall|a: int, b: int| 0 <= a < b < tx.inputs@.len() && rel.contains_key(tx.inputs@[a]) && rel.contains_key(tx.inputs@[b]) ==> rel[tx.inputs@[a]].coin_data.covhash != rel[tx.inputs@[b]].coin_data.covhash
     &&& dosc_pow_total(s, rel, tx)
 }
-/// state invariant: no coin is younger than the block being built
-pub open spec fn coin_heights_ok<C: ContentAddrStore>(s: UnsealedState<C>) -> bool { forall|id: CoinID| s.coins@.coins.contains_key(id) ==> (#[trigger] s.coins@.coins[id]).height.0 <= s.height.0 }
 pub open spec fn batch_env<C: ContentAddrStore>(s: UnsealedState<C>, txx: Seq<Transaction>) -> bool {
     &&& s.fee_pool.0 + s.tips.0 + fsum(txx, fee_of()) <= u128::MAX - 0x1_0000_0000_0000_0000_0000_0000_0000u128
-    &&& history_ok(s) && dosc_reward_fits(s) && coin_heights_ok(s)
+    &&& dosc_reward_fits(s)
     &&& forall|rel: Map<CoinID, CoinDataHeight>, t: int| #[trigger] rel_of(s, txx, rel) && 0 <= t < txx.len() ==> #[trigger] tx_env(s, rel, txx[t])
 }
 /// what check_tx_validity establishes for one transaction (its postconditions): inputs available, unlocked, approved, balanced
@@ -411,5 +409,24 @@ pub proof fn lemma_markers_batch<C: ContentAddrStore>(s: UnsealedState<C>, txx: 
         lemma_marker_not_kept(txx, h);
         assert(batch_coins(c0, c1, txx, rel));
         assert(!created_by(txx, n, rel, spec_marker(h)));
+    }
+}
+/// the chain invariants (no coin younger than the block, reward pseudo-coins only of earlier heights, history below the height with
+/// non-zero speeds) survive an accepted batch: new coins carry this height, markers height 0, and neither is a reward pseudo-id
+pub proof fn lemma_batch_hinv<C: ContentAddrStore>(s: UnsealedState<C>, txx: Seq<Transaction>, r: UnsealedState<C>, rel: Map<CoinID, CoinDataHeight>, ns: Map<TxHash, StakeDoc>)
+    requires batch_core_with(s, txx, r, rel, ns), hinv(s), r.history == s.history, r.height == s.height
+    ensures hinv(r)
+{
+    let c0 = s.coins@.coins; let c1 = r.coins@.coins; let n = txx.len() as int;
+    lemma_rel_heights(s, txx, rel);
+    assert forall|id: CoinID| c1.contains_key(id) implies (#[trigger] c1[id]).height.0 <= r.height.0 by {
+        if created_by(txx, n, rel, id) { assert(c1[id] == rel[id]); } else if c0.contains_key(id) { assert(c1[id] == c0[id]); } else { assert(is_marker_cdh(c1[id])); }
+    }
+    assert forall|hh: BlockHeight| c1.contains_key(#[trigger] spec_proposer_reward(hh)) implies hh.0 < r.height.0 as int by {
+        let id = spec_proposer_reward(hh);
+        broadcast use axiom_reward_not_output, axiom_reward_not_marker;
+        if created_by(txx, n, rel, id) { let (t, i) = choose|t: int, i: int| 0 <= t < n && 0 <= i < txx[t].outputs@.len() && id == #[trigger] cid(txx[t], i) && rel.contains_key(id); assert(spec_reward_hash(hh) != spec_txhash(txx[t]).0); assert(false); }
+        if marker_of(txx, n, id) { let t = choose|t: int| 0 <= t < n && (#[trigger] txx[t]).kind == TxKind::Faucet && !is_grandfathered(spec_txhash(txx[t])) && id == spec_marker(spec_txhash(txx[t])); assert(spec_reward_hash(hh) != spec_fdp_hash(spec_txhash(txx[t]))); assert(false); }
+        assert(c0.contains_key(id));
     }
 }
